@@ -88,3 +88,38 @@ def run_blocked(ctx):
     if summary["conclusive"] * 5 < summary["schedules"] * 4 and not ctx.violations:
         raise Broken("mblocked: the congestion could be produced in %d of %d schedules only" % (summary["conclusive"], summary["schedules"]))
     return r, summary
+
+
+def run_winwake(ctx):
+    """MpxWinWake.tla: a sender waiting for send window, held between its load of the window and its sleep, against the
+    peer's window updates in every order; replayed by mwinwake."""
+    total = {"schedules": 0, "steps": 0}
+    states = 0
+    for cfg in ("MpxWinWake.cfg", "MpxWinWake_b.cfg"):
+        r = tlc.run_tlc(ctx.scratch("winwake-" + cfg[:-4]), "MpxWinWake.tla", cfg, timeout=600, workers=2, out_name="winwake.out", heap="2g")
+        tlc.require_ok(r, cfg)
+        states += r.distinct
+        binp = ctx.go_build("mwinwake")
+        p = ctx.run([binp, "-in", r.outfile], timeout=2400)
+        if p.returncode != 0:
+            raise Broken("mwinwake failed: %s" % p.stderr[-2000:])
+        summary = None
+        for line in p.stdout.splitlines():
+            if not line.startswith("{"):
+                continue
+            d = json.loads(line)
+            if "summary" in d:
+                summary = d["summary"]
+            elif d["sig"] == "harness":
+                raise Broken("mwinwake: " + d["detail"])
+            else:
+                ctx.violation("winwake:" + d["sig"], "%s | schedule: %s" % (d["detail"], d["sched"]), d)
+        if not summary or summary["schedules"] == 0:
+            raise Broken("mwinwake replayed nothing")
+        total["schedules"] += summary["schedules"]
+        total["steps"] += summary["steps"]
+    rf = tlc.run_tlc(ctx.scratch("winwake-unbuffered"), "MpxWinWake.tla", "MpxWinWake_unbuffered.cfg", timeout=600, workers=2, out_name="winwakeu.out", heap="2g")
+    if "NoLostWakeup is violated" not in rf.out and rf.violated != "NoLostWakeup":
+        raise Broken("MpxWinWake without the buffered token does not lose a wake-up: the model is vacuous")
+    total["states"] = states
+    return total
